@@ -92,11 +92,16 @@ func execReflect(h *vh.H, op string) string {
 	}
 }
 
-// fail records an oracle failure. (Until the repairs recorded in known_findings.d/schema.json the
-// symptoms of google.protobuf.Struct, google.protobuf.Duration and lists / maps of Any were folded
-// into one signature per root cause here; they are schema errors now, so nothing is folded and any
-// reappearance is reported under its own signature.)
+// fail records an oracle failure; the symptoms of the one recorded root cause that is still open
+// (a list / map of Any reflects, lib/j5reflect has no array / map of Any) share one signature.
+// google.protobuf.Struct and google.protobuf.Duration used to be folded here too; they are schema
+// errors since 98dc738 / d5cc948, so any reappearance is reported under its own signature.
 func fail(h *vh.H, sig, op, detail string) {
+	switch {
+	case strings.HasPrefix(sig, "codec-error:encode:list-") && strings.HasSuffix(sig, ".Any"),
+		strings.HasPrefix(sig, "codec-error:encode:map-") && strings.HasSuffix(sig, ".Any"):
+		sig, detail = "any-in-collection:codec-error:encode", "["+sig+"] "+detail
+	}
 	h.Fail(sig, op, detail)
 }
 
@@ -651,8 +656,47 @@ func checkCodec(h *vh.H, op string, codec *j5codec.Codec, md protoreflect.Messag
 	return good
 }
 
+// knownBadField: a field whose own per-field run already carries the recorded finding (a list /
+// map of Any).
+func knownBadField(fd protoreflect.FieldDescriptor) bool {
+	el := fd
+	if fd.IsMap() {
+		el = fd.MapValue()
+	}
+	switch fieldClass(el) {
+	case "google.protobuf.Any", "j5.types.any.v1.Any":
+		return fd.IsList() || fd.IsMap()
+	}
+	return false
+}
+
+// reachesKnownBad: the message populated `depth` levels deep contains such a field.
+func reachesKnownBad(md protoreflect.MessageDescriptor, depth int) bool {
+	fs := md.Fields()
+	for i := 0; i < fs.Len(); i++ {
+		fd := fs.Get(i)
+		if knownBadField(fd) {
+			return true
+		}
+		el := fd
+		if fd.IsMap() {
+			el = fd.MapValue()
+		}
+		if depth > 0 && fieldClass(el) == "message" && reachesKnownBad(el.Message(), depth-1) {
+			return true
+		}
+	}
+	return false
+}
+
 // checkCodecAll: every field populated (nested messages one level deep).
 func checkCodecAll(h *vh.H, op string, codec *j5codec.Codec, md protoreflect.MessageDescriptor) {
+	if reachesKnownBad(md, 2) {
+		// the combined case would only repeat the recorded per-field finding under a broad signature
+		// (nested, the error surfaces; at the top level an exposed oneof swallows it in IsSet)
+		h.Count("reflect.codec.all-skipped-known-class")
+		return
+	}
 	name := string(md.FullName())
 	fields := md.Fields()
 	wrapper := j5schema.IsOneofWrapper(md)
